@@ -16,10 +16,21 @@ func init() { register("C18", checkC18) }
 
 // switchCaseConsts: constants listed in the case clauses of the first switch over a value of the named type.
 func switchCaseConsts(p *packages.Package, fd *ast.FuncDecl, typeName string) (map[string]bool, bool) {
+	// the function's own switch, or that of a same-package function it calls directly (the per-entry checks of a
+	// validator moved into a helper)
+	for _, body := range bodyWithHelpers(p, fd) {
+		if set, def := switchCaseConstsIn(p, body, typeName); set != nil {
+			return set, def
+		}
+	}
+	return nil, false
+}
+
+func switchCaseConstsIn(p *packages.Package, body ast.Node, typeName string) (map[string]bool, bool) {
 	out := map[string]bool{}
 	hasDefaultErr := false
 	found := false
-	ast.Inspect(fd.Body, func(n ast.Node) bool {
+	ast.Inspect(body, func(n ast.Node) bool {
 		sw, ok := n.(*ast.SwitchStmt)
 		if !ok || sw.Tag == nil || found {
 			return true
@@ -206,18 +217,74 @@ func checkC18(r *Run) propMeta {
 		}
 		// shard rollover: flush when Count() >= ShardSize
 		rollover := false
+		// a call of flush that is reached exactly when the writer's count has reached the shard size: inside
+		// `if w.Count() >= size { … }`, or after `if w.Count() < size { return nil }`
+		isCountVsSize := func(e ast.Expr, neg bool) bool {
+			be, ok := ast.Unparen(e).(*ast.BinaryExpr)
+			if !ok {
+				return false
+			}
+			isCount := func(x ast.Expr) bool {
+				call, ok := ast.Unparen(x).(*ast.CallExpr)
+				if !ok || len(call.Args) != 0 {
+					return false
+				}
+				sel, ok := call.Fun.(*ast.SelectorExpr)
+				return ok && sel.Sel.Name == "Count"
+			}
+			isSize := func(x ast.Expr) bool {
+				return strings.Contains(exprString(r.Fset, x), "ShardSize")
+			}
+			op, x, y := be.Op, be.X, be.Y
+			if isSize(x) && isCount(y) {
+				x, y = y, x
+				switch op {
+				case token.LSS:
+					op = token.GTR
+				case token.LEQ:
+					op = token.GEQ
+				case token.GTR:
+					op = token.LSS
+				case token.GEQ:
+					op = token.LEQ
+				}
+			}
+			if !isCount(x) || !isSize(y) {
+				return false
+			}
+			if neg {
+				return op == token.LSS
+			}
+			return op == token.GEQ || op == token.EQL
+		}
 		ast.Inspect(fd.Body, func(x ast.Node) bool {
-			if ifs, ok := x.(*ast.IfStmt); ok {
-				c := strings.ReplaceAll(exprString(r.Fset, ifs.Cond), " ", "")
-				if strings.Contains(c, ".Count()>=") && strings.Contains(c, "ShardSize") {
-					if stmtHasCall(ifs.Body, func(c2 *ast.CallExpr) bool {
-						id, ok := c2.Fun.(*ast.Ident)
-						return ok && id.Name == "flush"
-					}) {
+			fl, ok := x.(*ast.FuncLit)
+			if !ok {
+				return true
+			}
+			ast.Inspect(fl.Body, func(y ast.Node) bool {
+				call, ok := y.(*ast.CallExpr)
+				if !ok {
+					return true
+				}
+				if id, ok := call.Fun.(*ast.Ident); !ok || id.Name != "flush" {
+					return true
+				}
+				for _, l := range controlConds(fl.Body, call) {
+					e, neg := l.Expr, l.Neg
+					for {
+						u, isNot := ast.Unparen(e).(*ast.UnaryExpr)
+						if !isNot || u.Op != token.NOT {
+							break
+						}
+						e, neg = u.X, !neg
+					}
+					if isCountVsSize(e, neg) {
 						rollover = true
 					}
 				}
-			}
+				return true
+			})
 			return true
 		})
 		if aborts && lastFlush && rollover {
